@@ -9,6 +9,29 @@ from .expr import ExprMixin
 from . import extract
 
 
+def conjuncts(g):
+    if z3.is_quantifier(g) and g.is_forall() and g.num_patterns() > 0:
+        n = g.num_vars()
+        vs = [z3.Const(g.var_name(i), g.var_sort(i)) for i in range(n)]
+        body = z3.substitute_vars(g.body(), *reversed(vs))
+        pats = []
+        for i in range(g.num_patterns()):
+            p_ = g.pattern(i)
+            terms = [z3.substitute_vars(p_.arg(j), *reversed(vs)) for j in range(p_.num_args())]
+            pats.append(z3.MultiPattern(*terms) if len(terms) > 1 else terms[0])
+        if z3.is_implies(body) and z3.is_and(body.arg(1)):
+            return [z3.ForAll(vs, z3.Implies(body.arg(0), cj), patterns=pats) for cj in body.arg(1).children()]
+        if z3.is_and(body):
+            return [z3.ForAll(vs, cj, patterns=pats) for cj in body.children()]
+        return [g]
+    if z3.is_and(g):
+        out = []
+        for c in g.children():
+            out.extend(conjuncts(c))
+        return out
+    return [g]
+
+
 class LoopFrame:
     def __init__(self):
         self.continues: list[State] = []
